@@ -441,6 +441,9 @@ func (v AV) writeKeyM(b *strings.Builder, m func(int) int) {
 			b.WriteByte('}')
 		}
 	}
+	if v.k == 'U' && v.fn != nil {
+		fmt.Fprintf(b, "f%p", v.fn)
+	}
 	if v.what != "" && (v.k == 'K' || v.k == 'O' || v.k == 'A' || v.k == 'L') {
 		b.WriteString(v.what)
 	}
